@@ -26,7 +26,7 @@ ANCHOR_FUNCTIONS = ['server.py:Server.pwd', 'client.py:BaseClient.parse_director
 EXHAUSTIVE = {"quick": False, "thorough": False}
 
 PIECES = ['"', '""', '"""', " ", "  ", ";", "=", "Type=dir;", "Type=file;Size=1;", " -> ", "->", "-", "--", "\\", "\\\\", "%", "%20", "%s", "\t",
-          "é", "é", "ß", "日本", "😀", " ", "​", "'", "`", "$", "&", "*", "?", "[", "]", "{", "}", "(", ")", "|", "<", ">", "~", "#",
+          "é", "é", "\u2028", "\x85", "\x0c", "\x1c", "€", "ß", "日本", "😀", " ", "​", "'", "`", "$", "&", "*", "?", "[", "]", "{", "}", "(", ")", "|", "<", ">", "~", "#",
           "!", ":", ",", "@", "+", "226", "226 ", "226-", "150 ", "1", "12", "000", "d", "drwx", "-rw-r--r--", ".", "..", "...", "a.", ".a"]
 WORDS = ["a", "b", "name", "file", "x", "Z", "dir", "tmp", "0", "7", "foo", "bar"]
 
@@ -48,7 +48,7 @@ def gen_name(rng):
     return "fallback name"
 
 
-FIXED = ['-la', '-a b', '-2024', '-x', '-l -a', 'a  b  c', '   x   y', 'a"b', '"', '""', 'a""b', 'x"', '"x', '"""', ' lead', '  two lead', '-dash', '-', 'a b', 'a  b', 'semi;colon', 'a=b', 'Type=dir; x',
+FIXED = ['a\u2028b', 'a\x85b', 'x\x0cy', '日本', 'a€', '-la', '-a b', '-2024', '-x', '-l -a', 'a  b  c', '   x   y', 'a"b', '"', '""', 'a""b', 'x"', '"x', '"""', ' lead', '  two lead', '-dash', '-', 'a b', 'a  b', 'semi;colon', 'a=b', 'Type=dir; x',
          'a -> b', '226 done', '226-more', '150', '2', 'back\\slash', 'per%cent', 'tab\there', 'é', '😀', 'nb sp', ' lead-nbsp',
          'C:', 'a:b', '~', '*', '?', '.hidden', 'dots...', 'Jan 01 00:00 x', '-rw-r--r-- 1 a a 0 Jan 01 00:00 x', 'x' * 150]
 
